@@ -17,6 +17,7 @@ RULES = {
     "R-05.2": "quoted character-strings: every octet the tokenizer treats specially inside quotes is escaped by dns.rdata._escapify; \\DDD uses 3 digits on both sides",
     "R-05.3": "a field printed octet-wise with dns.rdata._escapify is parsed octet-wise (unescape_to_bytes), not through get_string() code points",
     "R-05.5": "the constructor validators enforce the intervals the evaluator assumes, on the value they return: _as_uintN rejects < 0 and > 2^N-1, _as_int rejects < low and > high, _as_bytes bounds len() of the *returned* bytes by max_length",
+    "R-05.6": "every text reader hands all three of origin, relativize, relativize_to to each name-reading call it makes (tok.get_name / tok.as_name / a helper's or the per-type from_text); the absolute-only names are listed",
     "R-05.4": "known types given in generic \\# syntax are re-decoded by the type's own reader and compared, inside the syntax-error wrapper",
 }
 
@@ -245,6 +246,9 @@ def _encoders(model):
     return out
 
 
+# name fields read as absolute names on purpose
+ABSOLUTE_NAME_OK = {("dns.rdtypes.ANY.TKEY.TKEY.from_text", "tok.get_name"): "the TKEY algorithm is an absolute name by definition (relativize=False)",
+                    ("dns.rdtypes.ANY.TSIG.TSIG.from_text", "tok.get_name"): "the TSIG algorithm is an absolute name by definition (relativize=False)"}
 VALIDATOR_BOUNDS = {"_as_uint8": (0, 0xFF), "_as_uint16": (0, 0xFFFF), "_as_uint32": (0, 0xFFFFFFFF), "_as_uint48": (0, 0xFFFFFFFFFFFF), "_as_int": ("low", "high"), "_as_bytes": (None, "max_length")}
 
 
@@ -445,6 +449,24 @@ def run(model, rep, tier):
     rep.check(not leak, "R-05.2", ef.qualname, where(ef, ef.node), f"quote, backslash, newline and octets >= 0x80 are escaped (raw range {hex(raw_lo)}..{hex(raw_hi)} minus {esc!r})",
               f"octets {[chr(c) if c < 0x7f else hex(c) for c in leak]} are written raw inside quotes but are special to the tokenizer", stmt="special-subset-escaped")
     rep.check(bool(fmts) and all(x == "'03d'" for x in fmts), "R-05.2", ef.qualname, where(ef, ef.node), "\\DDD written with exactly 3 digits", f"decimal escape format {fmts}", stmt="3-digits-written")
+    # the code-point variant used with txt_is_utf8: a decimal escape may only be produced for code points the reader can take back as one octet
+    uf = model.func("dns.rdata._escapify_unicode")
+    ucfg = CFG(uf.node, implicit_exc=False)
+    arms = [n for n in ucfg.stmts() if any(isinstance(e, ast.FormattedValue) and e.format_spec is not None and "ord(" in src(e.value) for e in own_nodes(n.ast))]
+    if not arms:
+        rep.blind("R-05.2", uf.qualname, where(uf, uf.node), "decimal-escape arm of _escapify_unicode not found", stmt="unicode-ddd-bounded")
+    for arm in arms:
+        ks = []
+        for t_ in ucfg.nodes:
+            if t_.kind == "test" and isinstance(t_.ast, ast.If) and ucfg.edge_dominated(arm.id, {(t_.id, "f")}):
+                nc = normalise_compare(t_.ast.test)
+                if nc[0] == "atom" and int_bound_gt(nc[1]) and int_bound_gt(nc[1])[0].startswith("ord("):
+                    ks.append(int_bound_gt(nc[1])[1])
+        rep.check(bool(ks) and min(ks) <= 256, "R-05.2", uf.qualname, where(uf, arm.ast), f"\\DDD is produced only for code points below {min(ks) if ks else '?'}",
+                  "_escapify_unicode writes \\DDD for code points not bounded below 256 (the arm is not the else of an `ord(c) >= K` test): the reader takes \\DDD as one octet <= 255, so such text "
+                  "parses to a different record or not at all", stmt="unicode-ddd-bounded")
+        fm = [src(e.format_spec).lstrip("f") for e in own_nodes(arm.ast) if isinstance(e, ast.FormattedValue) and e.format_spec is not None]
+        rep.check(all(x == "'03d'" for x in fm), "R-05.2", uf.qualname, where(uf, arm.ast), "\\DDD written with exactly 3 digits", f"decimal escape format {fm}", stmt="unicode-3-digits")
     for qn in ("dns.tokenizer.Token.unescape", "dns.tokenizer.Token.unescape_to_bytes"):
         f = model.func(qn)
         t = " ".join(src(f.node).split())
@@ -507,6 +529,37 @@ def run(model, rep, tier):
               "generic form = \\# length hex, with the length checked", "generic form parsing changed", stmt="generic-shape")
     gs = model.func("dns.rdata.GenericRdata.to_styled_text")
     rep.check("\\\\# " in src(gs.node) and "len(self.data)" in src(gs.node), "R-05.4", gs.qualname, where(gs, gs.node), "generic text = \\# length hex", "generic text production changed", stmt="generic-text")
+    # ---------------------------------------------------------------- R-05.6
+    TRIPLE = ("origin", "relativize", "relativize_to")
+    takes = {f.node.name for f in model.all_functions() if "relativize_to" in f.params()}
+    n_nm = 0
+    for f in sorted(model.all_functions(), key=lambda g: g.qualname):
+        if not (f.module.name.startswith("dns.rdtypes") or f.module.name == "dns.rdata") or not all(p in f.params() for p in TRIPLE):
+            continue
+        for c in ast.walk(f.node):
+            if not (isinstance(c, ast.Call) and isinstance(c.func, ast.Attribute) and c.func.attr in takes and c.func.attr in ("get_name", "as_name", "from_text")):
+                continue
+            if c.func.attr == "from_text":
+                tgt = model.resolve_expr(f, c.func.value)
+                if tgt in model.classes:
+                    m = model.lookup_method(model.classes[tgt], "from_text")
+                    if m is None or "relativize_to" not in m.params():
+                        continue
+                elif src(c.func.value) != "cls":
+                    continue
+            n_nm += 1
+            passed = {src(a) for a in c.args} | {src(k.value) for k in c.keywords}
+            key = (f.qualname, src(c.func))
+            missing = [p for p in TRIPLE if p not in passed]
+            if not missing:
+                rep.ok("R-05.6", f.qualname, where(f, c), f"`{src(c.func)}` receives origin, relativize, relativize_to", stmt="names " + src(c.func), nontrivial=False)
+            elif key in ABSOLUTE_NAME_OK:
+                rep.excepted("R-05.6", f.qualname, where(f, c), ABSOLUTE_NAME_OK[key], stmt="names " + src(c.func))
+            else:
+                rep.bad("R-05.6", f.qualname, where(f, c), f"`{src(c)[:70]}` does not pass {missing}: the name is relativized differently from the rest of the zone file "
+                        "(after a $ORIGIN that differs from the zone origin it silently denotes another name)", stmt="names " + src(c.func))
+    rep.floor("R-05.6", n_nm, 24)
+
     # ---------------------------------------------------------------- R-05.5
     check_validators(model, rep, "R-05.5")
     rep.assume("constructor validators (Rdata._as_*) are the only way fields are set (C07 R-07.2); float fields are outside the interval evaluator")
@@ -517,6 +570,14 @@ def run(model, rep, tier):
 
 
 WITNESSES = [
+    {"id": "c05-escapify-unicode-isprintable", "rule": "R-05.2", "file": "dns/rdata.py", "expect": "fires",
+     "old": "        elif ord(c) >= 0x20:\n            text += c", "new": "        elif c.isprintable():\n            text += c"},
+    {"id": "c05-twin-escapify-unicode-gt", "rule": "R-05.2", "file": "dns/rdata.py", "expect": "silent",
+     "old": "        elif ord(c) >= 0x20:\n            text += c", "new": "        elif ord(c) > 0x1F:\n            text += c"},
+    {"id": "c05-gateway-drops-relativize-to", "rule": "R-05.6", "file": "dns/rdtypes/util.py", "expect": "fires",
+     "old": "            gateway = tok.get_name(origin, relativize, relativize_to)", "new": "            gateway = tok.get_name(origin, relativize)"},
+    {"id": "c05-twin-soa-keywords", "rule": "R-05.6", "file": "dns/rdtypes/ANY/SOA.py", "expect": "silent",
+     "old": "        mname = tok.get_name(origin, relativize, relativize_to)", "new": "        mname = tok.get_name(origin=origin, relativize=relativize, relativize_to=relativize_to)"},
     {"id": "c05-as-bytes-bounds-the-argument", "rule": "R-05.5", "file": "dns/rdata.py", "expect": "fires",
      "old": "        if max_length is not None and len(bvalue) > max_length:", "new": "        if max_length is not None and len(value) > max_length:"},
     {"id": "c05-uint16-upper-off", "rule": "R-05.5", "file": "dns/rdata.py", "expect": "fires",
